@@ -58,6 +58,15 @@ type vC07Case struct {
 	// Kind "effects": what the call does on the called peer. PeerArg: the peer.ID argument (Cluster.PeerAdd):
 	// 0 = the called peer itself, 1 = the caller (its Cluster.ID call-back succeeds), 2 = a peer nobody can reach
 	PeerArg int `json:"peerarg,omitempty"`
+	// Kind "authseq": on ONE environment (fresh, Hist applied), Caller calls Ep, later Trust / Distrust calls are made on the
+	// called peer's consensus component, the same caller calls the same endpoint again, ...
+	Seq []vC07SeqStep `json:"seq,omitempty"`
+}
+
+// Op: "trust" | "distrust" (of Peer) | anything else = the call
+type vC07SeqStep struct {
+	Op   string `json:"op"`
+	Peer int    `json:"peer,omitempty"`
 }
 
 func (c *vC07Case) norm() {
@@ -75,6 +84,9 @@ func (c *vC07Case) norm() {
 	}
 	for i := range c.Hist {
 		c.Hist[i].Peer = clamp(c.Hist[i].Peer)
+	}
+	for i := range c.Seq {
+		c.Seq[i].Peer = clamp(c.Seq[i].Peer)
 	}
 	if c.Caller < 0 || c.Caller > 2 {
 		c.Caller = 2
@@ -425,6 +437,93 @@ func vC07Grid(seed uint64, n int) []vC07Case {
 			}
 		}
 	}
+	out = append(out, vC07SeqCases(seed, n)...)
+	return out
+}
+
+// call sequences with trust changes in between (kind "authseq"). Trust can change in crdt mode with an explicit list only
+// (raft trusts everyone, "*" trusts everyone): mostly that; Trust->Distrust, Distrust->Trust, operations on another peer.
+func vC07SeqCases(seed uint64, n int) []vC07Case {
+	call, tr, dis := vC07SeqStep{Op: "call"}, "trust", "distrust"
+	op := func(o string, p int) vC07SeqStep { return vC07SeqStep{Op: o, Peer: p} }
+	var out []vC07Case
+	add := func(mode string, star bool, list []int, caller int, ep string, seq ...vC07SeqStep) {
+		out = append(out, vC07Case{Kind: "authseq", Mode: mode, Star: star, List: list, Caller: caller, Ep: ep, Seq: seq})
+	}
+	for _, ep := range []string{"Consensus.LogPin", "PinTracker.StatusAll", "Cluster.Peers", "IPFSConnector.BlockPut", "Cluster.ID", "Cluster.Pins"} {
+		// let in while trusted, then distrusted (must be refused), then trusted again
+		add("crdt", false, []int{1}, 1, ep, call, op(dis, 1), call, op(tr, 1), call)
+		// refused while not trusted, then trusted (must be let in), then distrusted again
+		add("crdt", false, []int{}, 2, ep, call, op(tr, 2), call, op(dis, 2), call)
+	}
+	// operations on somebody else change nothing for the caller
+	add("crdt", false, []int{1}, 1, "PinTracker.Status", call, op(dis, 2), op(tr, 2), call)
+	add("crdt", false, []int{1}, 2, "PinTracker.Status", call, op(dis, 1), op(tr, 3), call)
+	// raft and "*": Distrust changes nothing
+	add("raft", false, []int{}, 1, "Consensus.LogPin", call, op(dis, 1), call)
+	add("crdt", true, []int{}, 2, "Consensus.LogUnpin", call, op(dis, 2), call)
+	// the peer itself, distrusted: its own calls are never authorized at all
+	add("crdt", false, []int{}, 0, "Cluster.Pins", call, op(dis, 0), call)
+
+	var trusted, open, closed []string
+	for k, v := range DefaultRPCPolicy {
+		switch v {
+		case RPCTrusted:
+			trusted = append(trusted, k)
+		case RPCOpen:
+			open = append(open, k)
+		default:
+			closed = append(closed, k)
+		}
+	}
+	sort.Strings(trusted)
+	sort.Strings(open)
+	sort.Strings(closed)
+	pick := func(r *vRand, l []string) string {
+		if len(l) == 0 {
+			return "Cluster.Version"
+		}
+		return l[r.intn(len(l))]
+	}
+	r := newVRand(seed*0x9E3779B97F4A7C15 + 0xC07D)
+	for k := 0; k < 5*n; k++ {
+		c := vC07Case{Kind: "authseq", Mode: "crdt", List: []int{}, Caller: r.rng(1, 2)}
+		switch {
+		case r.chance(6):
+			c.Mode = "raft"
+		case r.chance(8):
+			c.Star = true
+		}
+		for p := 1; p <= 3; p++ {
+			if r.chance(45) {
+				c.List = append(c.List, p)
+			}
+		}
+		for i, m := 0, r.rng(0, 2); i < m; i++ {
+			c.Hist = append(c.Hist, vC07Op{Trust: r.chance(50), Peer: r.rng(0, 3)})
+		}
+		switch x := r.intn(100); {
+		case x < 70:
+			c.Ep = pick(r, trusted)
+		case x < 85:
+			c.Ep = pick(r, open)
+		default:
+			c.Ep = pick(r, closed)
+		}
+		c.Tracing, c.Follower = r.chance(30), r.chance(20)
+		c.Seq = []vC07SeqStep{call}
+		for round, rounds := 0, r.rng(1, 3); round < rounds; round++ {
+			for i, m := 0, r.rng(0, 2); i < m; i++ {
+				who := c.Caller // mostly about the caller itself
+				if r.chance(25) {
+					who = r.rng(0, 3)
+				}
+				c.Seq = append(c.Seq, op([]string{tr, dis}[r.intn(2)], who))
+			}
+			c.Seq = append(c.Seq, call)
+		}
+		out = append(out, c)
+	}
 	return out
 }
 
@@ -455,12 +554,18 @@ func TestVerifC07(t *testing.T) {
 	}()
 	for _, c := range cases {
 		c.norm()
-		if env == nil || envKey != c.envKey() {
+		if c.Kind == "authseq" {
+			envKey = "" // its own environment, shared with nothing before or after (the Trust / Distrust calls change it)
+		}
+		if env == nil || envKey == "" || envKey != c.envKey() {
 			if env != nil {
 				env.close()
 			}
 			env = vC07NewEnv(t, &c)
 			envKey = c.envKey()
+			if c.Kind == "authseq" {
+				envKey = ""
+			}
 		}
 		eps := vC07Endpoints(env.cl)
 		names := make([]string, 0, len(eps))
@@ -519,6 +624,40 @@ func TestVerifC07(t *testing.T) {
 					}
 				}
 			}
+		case "authseq":
+			ep, known := eps[c.Ep]
+			if !known {
+				out.count("unknown-endpoint")
+				continue
+			}
+			// crdt Trust / Distrust store into / delete from the component's sync.Map before they return, raft's do nothing: the
+			// next call sees the new state, nothing to wait for
+			var steps, shape []string
+			var obs []bool
+			ncalls, changes := 0, false
+			for _, st := range c.Seq {
+				switch st.Op {
+				case "trust":
+					env.cons.Trust(env.ctx, env.ids[st.Peer])
+					steps = append(steps, fmt.Sprintf("SOp (TTrust %d)", st.Peer))
+					shape = append(shape, "T")
+					changes = changes || ncalls > 0
+				case "distrust":
+					env.cons.Distrust(env.ctx, env.ids[st.Peer])
+					steps = append(steps, fmt.Sprintf("SOp (TDistrust %d)", st.Peer))
+					shape = append(shape, "D")
+					changes = changes || ncalls > 0
+				default:
+					passed, _ := env.call(t, c.Caller, c.Ep, ep)
+					obs = append(obs, passed)
+					steps = append(steps, "SCall "+cqBool(passed))
+					shape = append(shape, map[bool]string{true: "+", false: "-"}[passed])
+					ncalls++
+				}
+			}
+			out.count(fmt.Sprintf("authseq/%s/%s", c.Mode, strings.Join(shape, "")))
+			out.add(fmt.Sprintf("CAuthSeq %s %d %s %s", c.coqMode(), c.Caller, cqStr(c.Ep), cqList(steps)),
+				c, map[string]interface{}{"passed": obs}, changes && ncalls > 1)
 		case "effects":
 			ep, known := eps[c.Ep]
 			if !known || c.Caller == 0 {
